@@ -2,19 +2,167 @@ package asn
 
 //gosx:file init=github.com/free5gc/chf/cdr/asn
 
-import vx "github.com/free5gc/chf/zzvx"
+import (
+	vx "github.com/free5gc/chf/zzvx"
+)
 
-// C05-U1: every int64 survives BerMarshal -> Unmarshal.
+// ---------------------------------------------------------------------------
+// C05 unit obligations: decode(encode(v)) == v for every primitive value.
+// ---------------------------------------------------------------------------
+
+// every int64 (all 2^64 values; strictly more than "exhaustive up to 3
+// content octets and all 2^k, 2^k+-1").
 //
-//gosx:property=C05 tier=quick init=github.com/free5gc/chf/cdr/asn
+//gosx:property=C05 tier=quick unwind=12
 func ZZ_C05_Int64() {
 	v := vx.Int64("v")
-	b, err := BerMarshal(v)
+	p := zzParams("ctx")
+	b, err := BerMarshalWithParams(v, p)
 	vx.Assert("marshal succeeds", err == nil)
 	var w int64
-	err = Unmarshal(b, &w)
+	err = UnmarshalWithParams(b, &w, p)
 	vx.Assert("unmarshal succeeds", err == nil)
 	vx.Assert("round trip", w == v)
 }
 
-func ZZ_C05_Int64_regionNegative(v int64) bool { return v < 0 }
+//gosx:property=C05 tier=quick unwind=12
+func ZZ_C05_Int32AndInt() {
+	p := zzParams("ctx")
+	if vx.Choice("kind", 2) == 0 {
+		v := vx.Int32("v")
+		b, err := BerMarshalWithParams(v, p)
+		vx.Assert("marshal succeeds", err == nil)
+		var w int32
+		err = UnmarshalWithParams(b, &w, p)
+		vx.Assert("unmarshal succeeds", err == nil)
+		vx.Assert("round trip", w == v)
+	} else {
+		v := vx.Int("v")
+		b, err := BerMarshalWithParams(v, p)
+		vx.Assert("marshal succeeds", err == nil)
+		var w int
+		err = UnmarshalWithParams(b, &w, p)
+		vx.Assert("unmarshal succeeds", err == nil)
+		vx.Assert("round trip", w == v)
+	}
+}
+
+//gosx:property=C05 tier=quick unwind=12
+func ZZ_C05_Enumerated() {
+	v := Enumerated(vx.Int64("v"))
+	p := zzParams("ctx")
+	b, err := BerMarshalWithParams(v, p)
+	vx.Assert("marshal succeeds", err == nil)
+	var w Enumerated
+	err = UnmarshalWithParams(b, &w, p)
+	vx.Assert("unmarshal succeeds", err == nil)
+	vx.Assert("round trip", w == v)
+}
+
+//gosx:property=C05 tier=quick
+func ZZ_C05_Bool() {
+	v := vx.Bool("v")
+	p := zzParams("ctx")
+	b, err := BerMarshalWithParams(v, p)
+	vx.Assert("marshal succeeds", err == nil)
+	var w bool
+	err = UnmarshalWithParams(b, &w, p)
+	vx.Assert("unmarshal succeeds", err == nil)
+	vx.Assert("round trip", w == v)
+}
+
+//gosx:property=C05 tier=quick
+func ZZ_C05_Null() {
+	v := NULL(true)
+	p := zzParams("ctx")
+	b, err := BerMarshalWithParams(v, p)
+	vx.Assert("marshal succeeds", err == nil)
+	var w NULL
+	err = UnmarshalWithParams(b, &w, p)
+	vx.Assert("unmarshal succeeds", err == nil)
+	vx.Assert("round trip", w == v)
+}
+
+//gosx:property=C05 tier=quick
+func ZZ_C05_OctetString() {
+	n, sym := zzLen("n", 4, false)
+	v := OctetString(zzBytes("b", n, sym))
+	p := zzParams("ctx")
+	b, err := BerMarshalWithParams(v, p)
+	vx.Assert("marshal succeeds", err == nil)
+	var w OctetString
+	err = UnmarshalWithParams(b, &w, p)
+	vx.Assert("unmarshal succeeds", err == nil)
+	vx.Assert("round trip", vx.BytesEq(w, v))
+}
+
+//gosx:property=C05 tier=thorough
+func ZZ_C05_OctetStringLong() {
+	n, sym := zzLen("n", 0, true)
+	v := OctetString(zzBytes("b", n, sym))
+	p := zzParams("ctx")
+	b, err := BerMarshalWithParams(v, p)
+	vx.Assert("marshal succeeds", err == nil)
+	var w OctetString
+	err = UnmarshalWithParams(b, &w, p)
+	vx.Assert("unmarshal succeeds", err == nil)
+	vx.Assert("round trip", vx.BytesEq(w, v))
+}
+
+//gosx:property=C05 tier=quick
+func ZZ_C05_Strings() {
+	n, sym := zzLen("n", 3, false)
+	s := string(zzBytes("s", n, sym))
+	p := zzParams("ctx")
+	sep := ","
+	if p == "" {
+		sep = ""
+	}
+	switch vx.Choice("strtype", 3) {
+	case 0:
+		v := UTF8String(s)
+		b, err := BerMarshalWithParams(v, p+sep+"utf8")
+		vx.Assert("marshal succeeds", err == nil)
+		var w UTF8String
+		err = UnmarshalWithParams(b, &w, p+sep+"utf8")
+		vx.Assert("unmarshal succeeds", err == nil)
+		vx.Assert("round trip", w == v)
+	case 1:
+		v := IA5String(s)
+		b, err := BerMarshalWithParams(v, p+sep+"ia5")
+		vx.Assert("marshal succeeds", err == nil)
+		var w IA5String
+		err = UnmarshalWithParams(b, &w, p+sep+"ia5")
+		vx.Assert("unmarshal succeeds", err == nil)
+		vx.Assert("round trip", w == v)
+	default:
+		v := GraphicString(s)
+		b, err := BerMarshalWithParams(v, p+sep+"graphic")
+		vx.Assert("marshal succeeds", err == nil)
+		var w GraphicString
+		err = UnmarshalWithParams(b, &w, p+sep+"graphic")
+		vx.Assert("unmarshal succeeds", err == nil)
+		vx.Assert("round trip", w == v)
+	}
+}
+
+//gosx:property=C05 tier=quick
+func ZZ_C05_BitString() {
+	n := vx.Choice("nbytes", 5)
+	bl := vx.Uint64("bitlen")
+	vx.Assume(bl <= uint64(8*n))
+	vx.Assume(bl+8 > uint64(8*n))
+	vx.Assume(n != 0 || bl == 0)
+	vx.Assume(n == 0 || bl > 0)
+	v := BitString{Bytes: vx.Bytes("b", n), BitLength: bl}
+	p := zzParams("ctx")
+	b, err := BerMarshalWithParams(v, p)
+	vx.Assert("marshal succeeds", err == nil)
+	var w BitString
+	err = UnmarshalWithParams(b, &w, p)
+	vx.Assert("unmarshal succeeds", err == nil)
+	vx.Assert("round trip: bit length", w.BitLength == v.BitLength)
+	vx.Assert("round trip: bytes", vx.BytesEq(w.Bytes, v.Bytes))
+}
+
+func ZZ_C05_regionNegative(v int64) bool { return v < 0 }
